@@ -196,26 +196,30 @@ fn check_history(ci: usize, case: &Value) -> Option<Value> {
 }
 
 /// max_random_delay: the schedule lies in [boundary, boundary + max)
-fn check_delay(case: &Value) -> Option<Value> {
+fn check_delay(idx: usize, case: &Value) -> Option<Value> {
     let t = *locals(&case["now"]).first()?;
-    log4rs::verif::set_now(Some(t));
     let n = match case.get("n_q") {
         Some(q) if !q.is_null() => q.as_i64().unwrap() * case["per_day"].as_i64().unwrap() + case["n_r"].as_i64().unwrap(),
         _ => case["n"].as_i64().unwrap(),
     };
-    let doc = format!("interval: {} {}\nmodulate: {}\nmax_random_delay: 10\n", n, case["unit"].as_str().unwrap(), case["mod"]);
+    // random-delay bounds: small ones, and bounds around 2^31, 2^32, what chrono's durations can hold (about 2^63 / 1000
+    // seconds), 2^63 and the largest u64 - the schedule lies in [boundary, boundary + bound) and nothing panics
+    let bounds: [u64; 9] = [1, 10, 3600, 1 << 31, (1 << 32) + 1, 9_223_372_036_854_775, 9_223_372_036_854_776, 1 << 63, u64::MAX];
+    let bound = bounds[mix(idx) % bounds.len()];
+    log4rs::verif::set_now(Some(t));
+    let doc = format!("interval: {} {}\nmodulate: {}\nmax_random_delay: {}\n", n, case["unit"].as_str().unwrap(), case["mod"], bound);
     let r = catch(|| {
         let tc: TimeTriggerConfig = serde_yaml::from_str(&doc).expect("trigger config");
         TimeTrigger::new(tc).verif_scheduled()
     });
     log4rs::verif::set_now(None);
     match r {
-        Err(p) => Some(json!({"what": "TimeTrigger::new panicked", "error": p})),
+        Err(p) => Some(json!({"what": "TimeTrigger::new panicked", "max_random_delay": bound, "error": p})),
         Ok(s) => {
             let lo = naive(&case["expect"]);
             let d = (s.naive_local() - lo).num_seconds();
-            if s.offset().fix() == t.offset().fix() && !(0..10).contains(&d) {
-                Some(json!({"what": "random delay outside [0, max)", "boundary": lo.to_string(), "scheduled": s.to_rfc3339()}))
+            if s.offset().fix() == t.offset().fix() && (d < 0 || d as u64 >= bound) {
+                Some(json!({"what": "random delay outside [0, max)", "max_random_delay": bound, "boundary": lo.to_string(), "scheduled": s.to_rfc3339()}))
             } else {
                 None
             }
@@ -240,7 +244,7 @@ pub fn main(args: &[String]) {
             None
         };
         if m.is_none() && c["kind"] == "grid" && i % 37 == 0 {
-            m = check_delay(c);
+            m = check_delay(i, c);
         }
         m.into_iter().map(|m| json!({"case": i, "zone": zone, "input": c, "mismatch": m})).collect()
     });
